@@ -112,11 +112,26 @@ def _data_valid(data):
     return ok
 
 
+class _LenientUnpickler(pickle._Unpickler):
+    """Pure-Python unpickler that, like the C one, treats FRAME opcodes as prefetch hints only."""
+    dispatch = dict(pickle._Unpickler.dispatch)
+
+    def load_frame(self):
+        self.read(8)
+
+    dispatch[pickle.FRAME[0]] = load_frame
+
+
 def _safe_loads(data):
-    """Harness-side validity check with the pure-Python unpickler (the C one prints SystemError
-    noise and may touch freed memory on some garbage inputs)."""
+    """Harness-side validity check: would *any* unpickler still produce an object from these bytes?
+    First the (frame-lenient) pure-Python unpickler; only if that fails the C unpickler, which is
+    what parso itself is about to run on the same bytes anyway (it prints SystemError noise on some
+    garbage)."""
     import io
-    return pickle._Unpickler(io.BytesIO(data)).load()
+    try:
+        return _LenientUnpickler(io.BytesIO(data)).load()
+    except BaseException:
+        return pickle.loads(data)
 
 
 _GRAMMARS = {}
